@@ -45,7 +45,16 @@ RULE = ("Round trip: Hypothesis draws the structure of a height map - shape (1xN
         "re-used path, optionally through ONE re-used Interferogram object whose data / dx / wavelength attributes are "
         "re-assigned; every result is compared with its own oracle only after the last read (results kept side by side), "
         "then every result array is overwritten in place and the files are read once more.  The truncation clauses re-read "
-        "the intact file after all the cut reads and require the first result again.")
+        "the intact file after all the cut reads and require the first result again.  The Interferogram that is saved has a drawn "
+        "origin: the constructor; the constructor with an explicit wavelength= AND a meta dict naming another wavelength / spacing "
+        "(hand-made with key 'wavelength' or 'Wavelength', or the header dict of an earlier file); wavelength=None with the wavelength "
+        "given through meta in metres (documented); or an earlier file (other map, other dx, other wavelength, other shape) loaded "
+        "with from_zygo_dat after which a drawn non-empty ordered subset of {data, dx, wavelength} is re-assigned through the public "
+        "attributes (data by rebinding or by writing into the loaded array) - the fields that are not re-assigned keep what was "
+        "loaded and the oracle is what the object holds when it is saved; in file_sequence the object returned by the previous read "
+        "may also be the one that is re-parameterised and saved next.  Every field the round trip must preserve (shape, values, NaN "
+        "placement, dx, wavelength) is therefore checked after having been changed on an object whose metadata still describe its "
+        "earlier state.")
 ASSUMPTIONS = ["the operating system's file layer returns the bytes that were written",
                "numpy float/int conversion and IEEE-754 float32 rounding (relative 2^-24) are correct",
                "the harness' own parser of the Code V header line (tokens GRD/WVL/SSZ/NDA) and of the 834-byte Zygo "
@@ -351,6 +360,8 @@ class _File:
             self.z_arg, self.want = typed_map(case, step, step * ZYGO_MAX_COUNTS)
             self.who = 'zygo' if kind == 'zygo' else 'interferogram'
             self.args, self.argnames = [self.z_arg, self.dx_arg, self.wvl_arg], ['map', 'dx', 'wavelength']
+            self.origin = case.get('origin', 'fresh') if kind == 'ifg' else 'fresh'
+            self.read_dx = self.read_wvl = None
         self.snap = _snapshot(*self.args)
 
     # -- write ---------------------------------------------------------------------------------------
@@ -361,12 +372,101 @@ class _File:
             return lambda f: write_zygo_dat(file=f, phase=self.z_arg, dx=self.dx_arg, **kw)
         return lambda f: write_zygo_dat(f, self.z_arg, self.dx_arg, **kw)
 
-    def make_interferogram(self):
+    def _stale(self):
+        """another wavelength / dx / shape than this file's: what an earlier life of the object (or its metadata) says"""
+        st_ = self.case.get('stale') or {}
+        w = float(st_.get('wavelength', 1.55))
+        if abs(w - self.wvl) <= 1e-3 * self.wvl:
+            w *= 1.7
+        dx = float(st_.get('dx', 0.25))
+        if abs(dx - self.dx) <= 1e-3 * max(self.dx, 1e-12):
+            dx = 0.37
+        return w, dx, list(st_.get('shape', [3, 5])), int(st_.get('seed', 1))
+
+    def _write_stale(self, d, keep=()):
+        """an earlier Zygo file (file layer only): other map; its dx / wavelength are this file's for the fields in `keep` (they
+        will be kept on the loaded object) and the stale ones otherwise.  Returns its path."""
+        from prysm.io import write_zygo_dat
+        w, dx, shape, seed = self._stale()
+        if 'wavelength' in keep:
+            w = self.wvl
+        if 'dx' in keep:
+            dx = self.dx
+        if 'data' in keep:
+            shape = list(self.case['shape'])
+        # modest heights (<= 1e4 counts of the stale wavelength): they stay inside the format's range at every other wavelength drawn
+        sub = dict(self.case, shape=shape, seed=seed, amp=min(float(self.case['amp']), 1e4), dtype='f8', layout='C',
+                   nan=self.case['nan'] if self.case['nan'] != 'all' else 'scatter')
+        z, _ = build_map(sub, _zygo_step(w))
+        p = os.path.join(d, 'stale.dat')
+        self.ctx.call(write_zygo_dat, p, z, dx, wavelength=w)
+        return p
+
+    def make_interferogram(self, d=None):
+        """the Interferogram that will be saved.  origin 'fresh': the constructor; 'meta-dict' / 'meta-header': the constructor with an
+        explicit wavelength= AND a metadata dict (hand-made, or the header of an earlier file) that names another wavelength / spacing;
+        'meta-only': wavelength=None and the wavelength given through meta (metres, the documented convention); 'loaded': an earlier
+        file loaded with from_zygo_dat, then the fields listed in case['assign'] re-assigned through the public attributes, in that
+        order - the other fields keep what was loaded, and the oracle is what the object holds."""
         from prysm.interferogram import Interferogram
+        from prysm.io import read_zygo_dat
+        ctx, origin = self.ctx, self.origin
         kw = {} if self.omit_wvl else {'wavelength': self.wvl_arg}
+        if origin in ('meta-dict', 'meta-header', 'meta-only', 'loaded') and d is None:
+            origin = 'fresh'
+        if origin == 'meta-dict':
+            w, dx, _, seed = self._stale()
+            kw['meta'] = {('wavelength' if seed % 2 else 'Wavelength'): w * 1e-6, 'lateral_resolution': dx * 1e-3}
+        elif origin == 'meta-header':
+            kw['meta'] = dict(ctx.call(read_zygo_dat, self._write_stale(d))['meta'])
+        elif origin == 'meta-only' and not self.omit_wvl:
+            kw = {'wavelength': None, 'meta': {('wavelength' if self.case['seed'] % 2 else 'Wavelength'): self.wvl * 1e-6}}
+        elif origin == 'loaded':
+            assign = [a for a in (self.case.get('assign') or ['data', 'dx', 'wavelength']) if a in ('data', 'dx', 'wavelength')]
+            keep = [a for a in ('data', 'dx', 'wavelength') if a not in assign]
+            # the new heights either replace the array (obj.data = z) or are written into the loaded array (obj.data[...] = z; the
+            # earlier file then has this map's shape)
+            inplace = self.case.get('data_how', 'rebind') == 'inplace' and 'data' in assign
+            obj = ctx.call(Interferogram.from_zygo_dat, self._write_stale(d, keep + ['data'] if inplace else keep))
+            inplace = inplace and isinstance(obj.data, np.ndarray) and obj.data.shape == self.want.shape and obj.data.flags.writeable
+            for a in assign:
+                if a == 'data' and inplace:
+                    obj.data[...] = self.want
+                    self.z_arg = obj.data
+                    self.want = np.array(obj.data, dtype=np.float64)
+                elif a == 'data':
+                    obj.data = self.z_arg
+                elif a == 'dx':
+                    obj.dx = self.dx_arg if not self.omit_dx else 0
+                else:
+                    obj.wavelength = self.wvl_arg
+            # the fields that were not re-assigned: the oracle is what the loaded object holds
+            if 'data' in keep:
+                ctx.require(isinstance(obj.data, np.ndarray) and obj.data.shape == tuple(self.case['shape']), 'interferogram:shape',
+                            'stale file of shape %s loaded as %s' % (self.case['shape'], np.shape(obj.data)))
+                self.z_arg, self.want = obj.data, np.array(obj.data, dtype=np.float64)
+                self.lowprec = self.case.get('wvlform', 'float') in ('np32', '0d32') and 'wavelength' in assign
+            if 'dx' in keep:
+                self.dx_arg = obj.dx
+                self.dx = float(obj.dx)
+            if 'wavelength' in keep:
+                ctx.require(obj.wavelength is not None, 'interferogram:wavelength', 'loaded wavelength is None')
+                self.wvl_arg = obj.wavelength
+                self.wvl = float(obj.wavelength)
+                if 'data' in keep:
+                    self.lowprec = False
+            self.args = [self.z_arg, self.dx_arg, self.wvl_arg]
+            self.snap = _snapshot(*self.args)
+            return obj
         if self.omit_dx:
-            return self.ctx.call(Interferogram, self.z_arg, **kw)
-        return self.ctx.call(Interferogram, phase=self.z_arg, dx=self.dx_arg, **kw)
+            obj = ctx.call(Interferogram, self.z_arg, **kw)
+        else:
+            obj = ctx.call(Interferogram, phase=self.z_arg, dx=self.dx_arg, **kw)
+        if origin == 'meta-only' and not self.omit_wvl:
+            ctx.require(obj.wavelength is not None and abs(float(obj.wavelength) - self.wvl) <= 1e-9 * self.wvl, 'interferogram:wavelength-from-meta',
+                        'Interferogram(wavelength=None, meta={wavelength: %r m}) has wavelength %r um' % (self.wvl * 1e-6, obj.wavelength))
+            self.wvl = float(obj.wavelength)
+        return obj
 
     def assign_to(self, obj):
         """re-use an Interferogram: new data / dx / wavelength through its public attributes"""
@@ -380,7 +480,7 @@ class _File:
         if self.kind == 'zygo':
             _write_zygo(ctx, self._zygo_writer(), self.target, path)
         elif self.kind == 'ifg':
-            self.obj = obj if obj is not None else self.make_interferogram()
+            self.obj = obj if obj is not None else self.make_interferogram(os.path.dirname(path))
             _write_zygo(ctx, self.obj.save_zygo_dat, self.target, path)
             o = self.obj
             same = (o.data is self.z_arg or np.array_equal(np.asarray(o.data), self.snap[0][0], equal_nan=True))
@@ -401,6 +501,44 @@ class _File:
         _require_unchanged(ctx, {'zygo': 'write_zygo_dat', 'ifg': 'save_zygo_dat', 'codev': 'write_codev_gridint'}[self.kind],
                            self.argnames, self.args, self.snap)
 
+    def change_saved_object(self, changes):
+        """the Interferogram that has just been saved is changed the way users change it - its data array edited in place through
+        numpy (halved, flipped, samples invalidated), dx / wavelength re-assigned - so that it can be saved again; the oracle follows.
+        Returns the labels of what was done."""
+        o, done = self.obj, []
+        for ch in changes:
+            d = o.data
+            if ch.startswith('data'):
+                if not (isinstance(d, np.ndarray) and d.flags.writeable):
+                    done.append('data:skipped(read-only)')
+                    continue
+                if ch == 'data-halve':
+                    if d.dtype.kind == 'f':
+                        o.data *= 0.5
+                    else:
+                        o.data //= 2
+                elif ch == 'data-flip':
+                    o.data[...] = d[::-1, ::-1].copy()
+                elif ch == 'data-invalidate' and d.dtype.kind == 'f':
+                    o.data[d.shape[0] // 2:, :(d.shape[1] + 1) // 2] = np.nan
+                else:
+                    done.append('data:skipped(integer map has no NaN)')
+                    continue
+                if o.data is not d:
+                    raise RuntimeError('harness: in-place edit replaced the array object')
+            elif ch == 'dx':
+                o.dx = self.dx * 3 + 0.125
+            elif ch == 'wavelength':
+                o.wavelength = self.wvl * 1.5      # a longer wavelength: the heights stay inside the format's range
+            else:
+                raise ValueError(ch)
+            done.append(ch)
+        self.z_arg, self.dx_arg, self.wvl_arg = o.data, o.dx, o.wavelength
+        self.want, self.dx, self.wvl = np.array(o.data, dtype=np.float64), float(o.dx), float(o.wavelength)
+        self.args = [self.z_arg, self.dx_arg, self.wvl_arg]
+        self.snap = _snapshot(*self.args)
+        return done
+
     # -- read ----------------------------------------------------------------------------------------
     def read(self, path):
         ctx = self.ctx
@@ -417,6 +555,8 @@ class _File:
                 from prysm.interferogram import Interferogram
                 back = ctx.call(Interferogram.from_zygo_dat, parg, **mia)
                 self.result, self.meta = back.data, back
+                # what the loaded object says at the time it is returned (it may be re-used for a later file)
+                self.read_dx, self.read_wvl = back.dx, back.wavelength
             else:
                 from prysm.io import read_codev_gridint
                 res = ctx.call(read_codev_gridint, parg)
@@ -453,14 +593,20 @@ class _File:
             got_dx = float(self.meta['lateral_resolution']) * 1e3
             got_w = float(self.meta['wavelength']) * 1e6
         else:
-            got_dx = float(self.meta.dx)
-            ctx.require(self.meta.wavelength is not None, who + ':wavelength', 'saved wavelength %r um, loaded None' % (wvl,))
-            got_w = float(self.meta.wavelength)
+            got_dx = float(self.read_dx)
+            ctx.require(self.read_wvl is not None, who + ':wavelength', 'saved wavelength %r um, loaded None' % (wvl,))
+            got_w = float(self.read_wvl)
         zero = ':dx-zero' if dx == 0 else ''
-        ctx.require(abs(got_dx - dx) <= 1e-6 * dx, who + ':dx' + zero, 'wrote dx %r mm (given as %s), read back %r mm' % (
-            dx, self.case.get('dxform', 'float'), got_dx))
-        ctx.require(abs(got_w - wvl) <= 1e-6 * wvl, who + ':wavelength', 'wrote wavelength %r um (given as %s), read back %r um' % (
-            wvl, self.case.get('wvlform', 'float'), got_w))
+        # name the history of the object that was saved (its metadata / earlier life named other values)
+        hist = '' if self.origin == 'fresh' or self.kind != 'ifg' else ':object-' + self.origin
+        how = '' if not hist else '; the Interferogram was %s' % {
+            'meta-dict': 'constructed with an explicit wavelength and a metadata dict', 'meta-header': 'constructed with an explicit wavelength and the header of another file as meta',
+            'meta-only': 'constructed with wavelength=None and the wavelength in meta',
+            'loaded': 'loaded from another file and had %s re-assigned through its attributes' % '+'.join(self.case.get('assign') or FIELDS)}[self.origin]
+        ctx.require(abs(got_dx - dx) <= 1e-6 * dx, who + ':dx' + zero + hist, 'wrote dx %r mm (given as %s), read back %r mm%s' % (
+            dx, self.case.get('dxform', 'float'), got_dx, how))
+        ctx.require(abs(got_w - wvl) <= 1e-6 * wvl, who + ':wavelength' + hist, 'wrote wavelength %r um (given as %s), read back %r um%s' % (
+            wvl, self.case.get('wvlform', 'float'), got_w, how))
         return worst
 
     def scribble(self):
@@ -502,13 +648,57 @@ def strat_zygo(tier):
     return st.fixed_dictionaries(d)
 
 
+ORIGINS = ['fresh', 'fresh', 'meta-dict', 'meta-header', 'meta-only', 'loaded', 'loaded', 'loaded']
+FIELDS = ['data', 'dx', 'wavelength']
+
+
+def _origin_fields():
+    """where the Interferogram that is saved comes from, and what its earlier life / its metadata say (see _File.make_interferogram)"""
+    stale = st.fixed_dictionaries({'wavelength': st.sampled_from([0.6328, 1.55, 0.532, 10.6, 0.1, 3.39]), 'dx': st.sampled_from([0.0, 0.25, 3.0, 1e-3, 40.0]),
+                                   'shape': st.tuples(st.integers(1, 6), st.integers(1, 6)).map(list), 'seed': st.integers(0, 1000)})
+    # a non-empty ordered subset of the three fields the round trip must preserve: each one alone, pairs, all three, in every order
+    assign = st.permutations(FIELDS).flatmap(lambda p: st.integers(1, 3).map(lambda k: list(p[:k])))
+    return {'origin': st.sampled_from(ORIGINS), 'stale': stale, 'assign': assign, 'data_how': st.sampled_from(['rebind', 'rebind', 'inplace'])}
+
+
+def strat_ifg(tier):
+    d = _map_fields({'quick': 24, 'thorough': 40}[tier], ZYGO_AMPS, large=True)
+    d.update(_zygo_fields())
+    d.update(_origin_fields())
+    d['resave'] = st.one_of(st.none(), st.none(), st.lists(st.sampled_from(RESAVE), min_size=1, max_size=3, unique=True))
+    return st.fixed_dictionaries(d)
+
+
+def _origin_labels(case, ctx):
+    o = case.get('origin', 'fresh')
+    ctx.label('origin:' + o)
+    if o == 'loaded':
+        a = case.get('assign') or FIELDS
+        ctx.label('re-assigned after loading: ' + '+'.join(sorted(a)), 're-assigned first: ' + a[0])
+        if 'data' in a:
+            ctx.label('data after loading: ' + case.get('data_how', 'rebind'))
+
+
+RESAVE = ['data-halve', 'data-flip', 'data-invalidate', 'dx', 'wavelength']
+
+
 def _roundtrip(case, kind, ctx, ext, tag=''):
     f = _File(case, kind, ctx)
+    resave = list(case.get('resave') or []) if kind == 'ifg' else []
     with tempfile.TemporaryDirectory() as d:
         p = os.path.join(d, 'a' + ext)
         f.write(p)
         f.read(p)
-    return f.compare(tag)
+        if not resave:
+            return f.compare(tag)
+        f.compare(tag)
+        # the same object, changed in place / through its attributes after it was saved, and saved again (to the same or another path)
+        for ch in f.change_saved_object(resave):
+            ctx.label('changed after the first save: ' + ch)
+        p2 = p if case['seed'] % 2 else os.path.join(d, 'b' + ext)
+        f.write(p2, obj=f.obj)
+        f.read(p2)
+        return f.compare(tag + ':second-save')
 
 
 def check_zygo(case, ctx):
@@ -522,6 +712,7 @@ def check_interferogram(case, ctx):
     """Interferogram.save_zygo_dat -> Interferogram.from_zygo_dat: data, dx and wavelength survive the unit conversions."""
     _labels(case, ctx, ZYGO_AMPS)
     ctx.label('target:' + case['target'], 'prec%d' % case['prec'])
+    _origin_labels(case, ctx)
     try:
         _roundtrip(case, 'ifg', ctx, '.dat')
     except Violation as v:
@@ -585,7 +776,9 @@ def strat_sequence(tier):
     d = _map_fields(nmax, [0.4, 100.0, 1e6], NANS_SOME_VALID)
     d.update(_zygo_fields())
     d.update(_codev_fields())
-    d.update({'kind': st.sampled_from(KINDS), 'reuse_obj': st.booleans(), 'target': st.sampled_from(['str', 'str', 'pathlib', 'fileobj', 'buffer'])})
+    d.update(_origin_fields())
+    d.update({'kind': st.sampled_from(KINDS), 'reuse_obj': st.booleans(), 'reuse_loaded': st.booleans(),
+              'target': st.sampled_from(['str', 'str', 'pathlib', 'fileobj', 'buffer'])})
     one = st.fixed_dictionaries(d)
     return st.fixed_dictionaries({'files': st.lists(one, min_size=2, max_size=3), 'mode': st.sampled_from(['batch', 'one-path']),
                                   'same_shape': st.booleans()})
@@ -606,10 +799,18 @@ def check_sequence(case, ctx):
             reuse = s['kind'] == 'ifg' and s['reuse_obj'] and prev is not None and prev.kind == 'ifg'
             f = _File(s, s['kind'], ctx, shape=subs[0]['shape'] if case.get('same_shape') else None)
             f.path = os.path.join(d, 'm.dat' if case['mode'] == 'one-path' else 'm%d%s' % (k, '.int' if s['kind'] == 'codev' else '.dat'))
-            if reuse:
+            # ... or the Interferogram that the previous read returned (load -> relabel -> save, the usual workflow)
+            reuse_loaded = (s['kind'] == 'ifg' and s.get('reuse_loaded', False) and prev is not None and prev.kind == 'ifg'
+                            and prev.result is not None and not isinstance(prev.meta, dict) and prev.meta is not None)
+            if reuse_loaded:
+                ctx.label('interferogram object returned by the previous read re-used')
+                f.write(f.path, obj=f.assign_to(prev.meta))
+            elif reuse:
                 ctx.label('interferogram object re-used')
                 f.write(f.path, obj=f.assign_to(prev.obj))
             else:
+                if s['kind'] == 'ifg':
+                    _origin_labels(s, ctx)
                 f.write(f.path)
             if case['mode'] == 'one-path':
                 f.read(f.path)          # the next file replaces this one
@@ -820,7 +1021,7 @@ def check_codev_trunc(case, ctx):
 
 CLAUSES = [
     HypClause('zygo_roundtrip', strat_zygo, check_zygo, examples={'quick': 400, 'thorough': 1500}, shards={'quick': 3, 'thorough': 6}),
-    HypClause('interferogram_roundtrip', strat_zygo, check_interferogram, examples={'quick': 400, 'thorough': 1500},
+    HypClause('interferogram_roundtrip', strat_ifg, check_interferogram, examples={'quick': 400, 'thorough': 1500},
               shards={'quick': 3, 'thorough': 6}),
     HypClause('codev_roundtrip', strat_codev, check_codev, examples={'quick': 400, 'thorough': 1500}, shards={'quick': 3, 'thorough': 6}),
     HypClause('file_sequence', strat_sequence, check_sequence, examples={'quick': 250, 'thorough': 1000}, shards={'quick': 2, 'thorough': 4}),
